@@ -160,6 +160,7 @@ type provInst struct {
 	cfg      *op.Config
 	pcfg     *ProvCfg
 	built    *builtCfg
+	dev0     devAnswer
 	devFP    string            // device authorization answer right after construction, own codes left aside (devAnswer.norm)
 	light    map[string]string // key set and the answer to a fixed bad token request right after construction (asked again after every step)
 	provider *op.Provider
@@ -377,7 +378,8 @@ func (e *orderEnv) newProvider(s Step) (*provInst, error) {
 	p.iss, p.other = e.extraBehaviour(p, true)
 	p.other0 = p.other
 	p.light = e.lightBehaviour(p)
-	p.devFP = e.deviceAsk(p, "its construction", 1)[0].norm()
+	p.dev0 = e.deviceAsk(p, "its construction", 1)[0]
+	p.devFP = p.dev0.norm()
 	return p, nil
 }
 
@@ -587,6 +589,10 @@ func (e *orderEnv) judge(si int, s Step, created *provInst, last bool) {
 		if m := e.bornLike(created, s, epDirty); m != "" {
 			e.res.Label("behaviour-changed:new-provider-not-like-first")
 			add("C20:new-provider-differs-from-first-built-with-same-options:"+created.router, fmt.Sprintf("provider %d (%s), built after %d providers: %s", created.idx, describeStep(s), created.idx, m))
+		}
+		if l := append(created.pcfg.discoveryMismatch(jsonOf(created.disc0)), created.pcfg.deviceMismatch(created.issuer, created.dev0)...); len(l) > 0 {
+			e.res.Label("behaviour-changed:new-provider-not-by-own-config")
+			add(fpNotOwnConfig, fmt.Sprintf("provider %d (%s), built after %d providers, right after its construction: %s", created.idx, describeStep(s), created.idx, strings.Join(l, "; ")))
 		}
 		if m := e.bornLikeSameConfig(created, epDirty); m != "" {
 			e.res.Label("behaviour-changed:new-provider-not-like-first-with-same-config")
